@@ -37,15 +37,17 @@ def limitOfEp (ep : Endpoint) (s : String) : Option (Option Nat) :=
       | _, _, _ => none
     | _ => s.toNat?.map fun n => effectiveLimit c ep (some (.assumed .dflt (some n)))
 
-def paths : List String := ["inline", "off", "joff", "push", "pushoff", "pushn", "pushrun", "bcast", "bcastj", "bcastu", "proxy"]
+def paths : List String := ["inline", "off", "joff", "push", "pushoff", "pushn", "pushrun", "bcast", "bcastj", "bcastu", "bcastm", "proxy"]
 
 /-- the client API used (all funnel into `write_request`; which one is not part of the model) -/
-def clientKinds : List String := ["call", "notify", "cjson", "cjsont", "ctyped", "cbeve", "rwrite", "njson", "nbeve", "batch", "batchrun"]
+def clientKinds : List String := ["call", "notify", "cjson", "cjsont", "ctyped", "cbeve", "rwrite", "njson", "nbeve", "batch", "batchrun",
+  "cfmtt", "ctypedt", "cbevet", "cmsg", "cmsgt", "rread", "rreadt", "rreadty", "rreadtyt", "rcall", "ntyped", "batcht"]
 
 /-- how many identical messages the op queues: a broadcast once per registered peer (the harness keeps two),
 `pushrun` / `batchrun` a run whose length is read off the id -/
 def copiesOf (kind : String) (id : Nat) : Nat :=
-  if kind.startsWith "bcast" then 2
+  if kind = "bcastm" then 14   -- the world with twelve further registered peers
+  else if kind.startsWith "bcast" then 2
   else if kind = "pushrun" || kind = "batchrun" then [2, 9, 17, 65].getD (id % 4) 1
   else 1
 
